@@ -46,6 +46,14 @@ func s2RunSteps(c *fw.Case, prop string, p *engine.Profile, steps []engine.Step)
 			if mode == 0 {
 				return
 			}
+			if kind == "watch.deliver" {
+				// one watcher's stream lags behind the others by 1..20 ms (3 % / 6 % of the deliveries)
+				if r.Intn(1000) < 30*mode {
+					c.Count("watch_deliveries_delayed", 1)
+					time.Sleep(time.Duration(1+r.Intn(20)) * time.Millisecond)
+				}
+				return
+			}
 			// schedule perturbation at decorated calls: a short sleep with probability 10% / 20%
 			x := r.Intn(1000)
 			if x < 100*mode {
